@@ -34,6 +34,9 @@ fn dispatch(id: &str, tier: Tier) -> i32 {
         "C28" => props::c28::check(tier),
         "C14" => props::c14::check(tier),
         "C16" | "C17" | "C18" | "C19" | "C20" => props::instr::check(match id { "C16" => "C16", "C17" => "C17", "C18" => "C18", "C19" => "C19", _ => "C20" }, tier),
+        "C15" => props::lowering::check_c15(tier),
+        "C21" => props::lowering::check_c21(tier),
+        "C22" => props::lowering::check_c22(tier),
         "C24" => props::c24::check(tier),
         "C25" => props::c25::check(tier),
         "C26" => props::c26::check(tier),
@@ -49,7 +52,9 @@ fn replay_dispatch(id: &str, family: &str, case: &serde_json::Value) -> Option<V
     match id {
         "C01" | "C02" => Some(props::c01::replay(id, case)),
         "C06" | "C07" | "C08" => Some(props::hist::replay(id, case)),
+        "C05" if family.starts_with("instrumentation plans") => Some(props::lowering::replay(id, family, case)),
         "C05" | "C09" | "C10" | "C11" | "C29" => Some(props::hist2::replay(id, case)),
+        "C15" | "C21" | "C22" => Some(props::lowering::replay(id, family, case)),
         "C16" | "C17" | "C18" | "C19" | "C20" => Some(props::instr::replay(case)),
         "C24" => Some(props::c24::replay(case)),
         "C03" => Some(props::c03::replay(family, case)),
